@@ -10,9 +10,10 @@ import (
 
 // C17: strz rune-aware helpers.
 // case = op :: args; string = length-prefixed bytes; int = two tokens hi lo (value hi*2^32+lo).
-//   0 Mask str mask start end   1 Sub s start length   2 SubByDisplay s limit   3 Rev s   4 Len s
-//   5 RemoveRunes s kind a      6 SnakeToCamelCase s up   7 CamelCaseToSnake s   8 UcFirst s   9 LcFirst s
-//  10 CamelCaseToSnake(SnakeToCamelCase(s, up))
+//
+//	 0 Mask str mask start end   1 Sub s start length   2 SubByDisplay s limit   3 Rev s   4 Len s
+//	 5 RemoveRunes s kind a      6 SnakeToCamelCase s up   7 CamelCaseToSnake s   8 UcFirst s   9 LcFirst s
+//	10 CamelCaseToSnake(SnakeToCamelCase(s, up))
 var c17Names = []string{"Mask", "Sub", "SubByDisplay", "Rev", "Len", "RemoveRunes", "SnakeToCamelCase", "CamelCaseToSnake", "UcFirst", "LcFirst", "CamelToSnake.SnakeToCamel", "RemoveRunes+calls"}
 
 func c17PutInt(v int64) []int64 {
@@ -48,10 +49,82 @@ func c17Pred(kind, a int64) func(rune) bool {
 	}
 }
 
+// A result is read only after the same helper has been called again on other strings (of the same size, with capitals
+// and underscores: every branch that builds its result in a scratch buffer is taken): a returned string must not share
+// memory with anything a later call writes to.  The argument must be unchanged too.
+func c17Disturb(s string) []string {
+	d := make([]byte, len(s)+3)
+	for i := range d {
+		d[i] = "Zq_Yx9"[i%6]
+	}
+	return []string{string(d), "Ab_Cd" + s, s + "_Xy"}
+}
+
 func c17Impl(in []int64) []int64 {
+	out := c17Impl1(in, false)
+	if len(in) > 0 && in[0] != 4 && in[0] != 11 {
+		if out2 := c17Impl1(in, true); !eqTok(out, out2) {
+			return append(out2, -1000032) // the result changed when the helper was called again before it was read
+		}
+	}
+	return out
+}
+
+func c17Impl1(in []int64, disturb bool) []int64 {
 	op := in[0]
 	sb, r := GetList(in[1:])
-	s := string(ToBytes(sb))
+	orig := ToBytes(sb)
+	s := string(orig)
+	keep := func(f func(string) string) []int64 {
+		res := f(s)
+		if disturb {
+			for _, d := range c17Disturb(s) {
+				func() {
+					defer func() { recover() }()
+					f(d)
+				}()
+			}
+		}
+		o := make([]int64, 0, len(res)+1)
+		for i := 0; i < len(res); i++ {
+			o = append(o, int64(res[i]))
+		}
+		if s != string(orig) {
+			o = append(o, -1000033) // the argument was modified
+		}
+		return o
+	}
+	if disturb {
+		switch op {
+		case 0:
+			mb, r2 := GetList(r)
+			st, r3 := c17GetInt(r2)
+			en, _ := c17GetInt(r3)
+			m := string(ToBytes(mb))
+			return keep(func(x string) string { return strz.Mask(x, m, int(st), int(en)) })
+		case 1:
+			st, r2 := c17GetInt(r)
+			ln, _ := c17GetInt(r2)
+			return keep(func(x string) string { return strz.Sub(x, int(st), int(ln)) })
+		case 2:
+			lim, _ := c17GetInt(r)
+			return keep(func(x string) string { return strz.SubByDisplay(x, int(lim)) })
+		case 3:
+			return keep(strz.Rev)
+		case 5:
+			return keep(func(x string) string { return strz.RemoveRunes(x, c17Pred(r[0], r[1])) })
+		case 6:
+			return keep(func(x string) string { return strz.SnakeToCamelCase(x, r[0] != 0) })
+		case 7:
+			return keep(strz.CamelCaseToSnake)
+		case 8:
+			return keep(strz.UcFirst)
+		case 9:
+			return keep(strz.LcFirst)
+		case 10:
+			return keep(func(x string) string { return strz.CamelCaseToSnake(strz.SnakeToCamelCase(x, r[0] != 0)) })
+		}
+	}
 	switch op {
 	case 0:
 		mb, r2 := GetList(r)
@@ -174,6 +247,18 @@ func c17Gen(c *Ctx) {
 	})
 	c.Note(fmt.Sprintf("part 2: all %d strings of length <= %d over {a z _ 0 A é} through SnakeToCamelCase (both flags), CamelCaseToSnake and the round trip", len(ids), IL))
 
+	// ---- part 0: every byte value at the positions the case helpers look at (first byte, after an underscore, after a
+	// lower-case letter, alone): the edges of the letter ranges ('A', 'Z', 'a', 'z' and their neighbours '@', '[', '`', '{')
+	c.Each(256, func(i int, t *T) {
+		b := byte(i)
+		for _, s := range [][]byte{{b}, {b, 'b'}, {b, 'B'}, {'x', b, 'y'}, {'a', '_', b}, {'a', '_', b, 'c'}, {'a', b, 'C'}, {b, b}, {b, 0xc3, 0xa9}} {
+			t.Try("every-byte/UcFirst", c17Case(8, s), true)
+			t.Try("every-byte/LcFirst", c17Case(9, s), true)
+			t.Try("every-byte/SnakeToCamelCase", c17Case(6, s, 0), true)
+			t.Try("every-byte/SnakeToCamelCase", c17Case(6, s, 1), true)
+			t.Try("every-byte/CamelCaseToSnake", c17Case(7, s), true)
+		}
+	})
 	// ---- part 1: every string of <= 3 pieces over the small alphabet, arguments 0..runes+3 (and -1)
 	K := c17SmallAlphabet
 	L := c.N(3, 4)
@@ -230,6 +315,11 @@ func c17Gen(c *Ctx) {
 	c.Each(n3, func(i int, t *T) {
 		r := t.R
 		np := r.Intn(10)
+		long := i%40 == 7 // strings of 60..1600 pieces: scratch buffers of 64/256/1024/4096 bytes, growth policies
+		if long {
+			np = 60 + r.Intn([]int{40, 200, 600, 1540}[r.Intn(4)])
+			t.C.Count("long-strings", fmt.Sprintf("%d00+ pieces", np/100))
+		}
 		var s []byte
 		for j := 0; j < np; j++ {
 			if r.Intn(12) == 0 {
@@ -303,6 +393,9 @@ func c17Gen(c *Ctx) {
 			// a grammar identifier, sometimes damaged
 			var id []byte
 			words := 1 + r.Intn(4)
+			if long {
+				words = 20 + r.Intn(400)
+			}
 			for w := 0; w < words; w++ {
 				if w > 0 {
 					id = append(id, '_')
@@ -407,6 +500,6 @@ func c17Shrink(in []int64) [][]int64 {
 }
 
 func init() {
-	Register(&Prop{ID: "C17", Num: 17, SpecMode: "rel", Gen: c17Gen, Impl: c17Impl, Shrink: c17Shrink, Describe: c17Describe,
-		Rule: "part 1 (exhaustive): every string of <= 3 (thorough 4) pieces over {a Z _ é € 😀 U+FFFD 0xff 0x80 E2-82} with Sub/Mask/SubByDisplay arguments from -1/0 to beyond the rune count and all other helpers; part 2 (exhaustive): every string of length <= 4 (6) over {a z _ 0 A é} through the case converters and their round trip; part 3: random strings of up to 9 pieces (16 pieces incl. surrogate/overlong/too-large encodings, random raw bytes) with in-range, edge, MaxInt-k, 2^31..2^62 and negative arguments. distinct = distinct (op, string, arguments); non-trivial = the string has >= 2 runes and a non-ASCII byte (identifier families: length >= 3; small/Mask additionally start+end < rune count)"})
+	Register(&Prop{ID: "C17", Pure: true, Num: 17, SpecMode: "rel", Gen: c17Gen, Impl: c17Impl, Shrink: c17Shrink, Describe: c17Describe,
+		Rule: "part 0 (exhaustive): every byte value alone, first, after an underscore, after a lower-case letter, through UcFirst/LcFirst/SnakeToCamelCase/CamelCaseToSnake; part 1 (exhaustive): every string of <= 3 (thorough 4) pieces over {a Z _ é € 😀 U+FFFD 0xff 0x80 E2-82} with Sub/Mask/SubByDisplay arguments from -1/0 to beyond the rune count and all other helpers; part 2 (exhaustive): every string of length <= 4 (6) over {a z _ 0 A é} through the case converters and their round trip; part 3: random strings of up to 9 pieces, one in 40 of 60..1600 pieces / identifiers of 20..420 words (16 pieces incl. surrogate/overlong/too-large encodings, random raw bytes) with in-range, edge, MaxInt-k, 2^31..2^62 and negative arguments. distinct = distinct (op, string, arguments); non-trivial = the string has >= 2 runes and a non-ASCII byte (identifier families: length >= 3; small/Mask additionally start+end < rune count)"})
 }
